@@ -64,8 +64,11 @@ class OpTable:
 
 def run_ops(rep, tier, invariants, label="MC_DWT1_Ops", **over):
     c = models.model(models.DWT1_OPS, tier, **over)
+    # no -coverage here: its instrumentation slows the operator-heavy evaluation tenfold; the only
+    # action is Pick, one per configuration, so the action count is the number of picked states
     res = tlc.run_model("MC_DWT1_Ops", c, invariants=["EmitOK"] + list(invariants), shards=NCPU,
-                        tag=label, timeout=3000)
+                        tag=label, timeout=3000, coverage=False)
+    res.coverage = {"Pick": res.distinct - NCPU}
     rep.add_tlc(res, label)
     design_check(rep, res, label)
     return res, OpTable(res.records)
